@@ -2,7 +2,24 @@ package main
 
 import "fmt"
 
+var extraSelf []func()
+
 func runSelftests() int {
-	fmt.Println("selftest: (filled in as the runtime grows)")
+	for _, f := range extraSelf {
+		f()
+	}
 	return 0
+}
+
+func init() {
+	extraSelf = append(extraSelf, func() {
+		for _, d := range []struct {
+			n string
+			d Domains
+		}{{"full", fullDomains}, {"small", smallDomains}, {"tiny", tinyDomains()}} {
+			all := catalogActions(d.d, nil)
+			w := catalogActions(d.d, func(e *CatEntry) bool { return !e.Read })
+			fmt.Printf("catalogue %-5s: all=%d writes=%d reads=%d\n", d.n, len(all), len(w), len(all)-len(w))
+		}
+	})
 }
